@@ -1,6 +1,7 @@
 package soyhtml
 
 import (
+	"sort"
 	"fmt"
 	"math"
 	"math/rand"
@@ -63,8 +64,15 @@ func funcLength(v []data.Value) data.Value {
 }
 
 func funcKeys(v []data.Value) data.Value {
-	var keys data.List
+	// (in sorted order: Go's map iteration would give the same template another
+	// output on every render)
+	var names []string
 	for k := range v[0].(data.Map) {
+		names = append(names, k)
+	}
+	sort.Strings(names)
+	var keys data.List
+	for _, k := range names {
 		keys = append(keys, data.String(k))
 	}
 	return keys
